@@ -10,6 +10,7 @@ open Fox Fox.Util Fox.Spec.Logger Fox.Model.Logger
 def parseOp (s : String) : Option Op :=
   if s == "b" then some .body
   else if s == "p" then some .panic
+  else if s == "f" then some .flush
   else if s.startsWith "h" then (s.drop 1).toString.toInt?.map Op.header
   else if s.startsWith "L" then (fromHex (s.drop 1).toString).map Op.setLoc
   else none
